@@ -243,7 +243,7 @@ class Gen:
             return {"C01/none-vs-empty/lam-tagged-blocks-empty-without-layer-info"}
         if lam.layer_info is None:
             lam = doc.layer_and_mask_information = LM.LayerAndMaskInformation(
-                self.layer_info(version, encoding, n=1), self.glm(), self.TB.TaggedBlocks())
+                self.layer_info(version, encoding, n=1, typed=False), self.glm(), self.TB.TaggedBlocks())
         if force == "count0-empty-lists":
             lam.layer_info = LM.LayerInfo(0, LM.LayerRecords([]), LM.ChannelImageData([]))
             return {"C01/none-vs-empty/layer-info-count0-empty-lists"}
@@ -259,11 +259,13 @@ class Gen:
             lam.global_layer_mask_info = LM.GlobalLayerMaskInfo()
             lam.tagged_blocks = self.TB.TaggedBlocks()
             doc.image_data = self.image_data(small=True)
-            return {"C01/glm/gate-depends-on-bytes-after-section"}
+            # repaired (repo 5f4da52): the gate is `fp.tell() + 4 <= end_pos`; kept as a regression case that must be
+            # well formed and round-trip
+            return set()
         # blending ranges: need a record
         li = lam.layer_info
         if not li.layer_records:
-            lam.layer_info = li = self.layer_info(version, encoding, n=1)
+            lam.layer_info = li = self.layer_info(version, encoding, n=1, typed=False)
         rec = li.layer_records[0]
         if force == "ranges-composite-without-channels":
             rec.blending_ranges = LM.LayerBlendingRanges(self.range4(), None)
